@@ -31,7 +31,7 @@ func laneKilled(c *ev.Ctx, id, point, op string) {
 	}
 	defer env.Close()
 	defer os.Remove(armFile)
-	w := &world{c: c, env: env, root: env.Client(0)}
+	w := &world{c: c, env: env, root: c17Client(env)}
 	if err := w.setupOpenBucket(); err != nil {
 		c.Inconclusive(err.Error())
 		return
@@ -75,7 +75,7 @@ func laneKilled(c *ev.Ctx, id, point, op string) {
 		c.Violation("killed-change:gateway-does-not-start-again:"+point, id, map[string]any{"operation": op, "error": firstLineK(err.Error())})
 		return
 	}
-	w.root = env.Client(0)
+	w.root = c17Client(env)
 	bad := false
 	for ak, a := range acked {
 		ok, resp := lookup(w.root, ak, a.Secret)
@@ -102,4 +102,12 @@ func firstLineK(s string) string {
 		}
 	}
 	return s
+}
+
+// c17Client: the first client of the environment with a 25 s watchdog per request. Nothing this check sends takes
+// seconds on a healthy gateway; a gateway that has stopped answering must not cost two minutes per request.
+func c17Client(env *fx.Env) *s3c.Client {
+	cl := env.Client(0)
+	cl.DefaultWatchdog = 25 * time.Second
+	return cl
 }
